@@ -187,15 +187,16 @@ namespace BitSerializer::Convert::Utf
 				}
 
 				// Decode following tails
+				const int sequenceLength = tails;
 				for (; tails > 1; --tails)
 				{
 					if (in == end) {
 						return UtfEncodingResult(UtfEncodingErrorCode::UnexpectedEnd, startTailPos, invalidSequencesCount);
 					}
 
+					const auto nextTail = static_cast<uint8_t>(*in);
 					if (!isWrongSeq)
 					{
-						const auto nextTail = static_cast<uint8_t>(*in);
 						if ((nextTail & 0b11000000) == 0b10000000)
 						{
 							sym <<= 6;
@@ -206,7 +207,18 @@ namespace BitSerializer::Convert::Utf
 							isWrongSeq = true;
 						}
 					}
+					// Do not skip a code unit which can start a new valid sequence (ASCII character or leading byte)
+					if (isWrongSeq && (nextTail < 0x80 || (nextTail >= 0xC2 && nextTail <= 0xF4))) {
+						break;
+					}
 					++in;
+				}
+
+				// Overlong encodings and code points beyond U+10FFFF are ill-formed (RFC 3629)
+				if (!isWrongSeq)
+				{
+					isWrongSeq = (sequenceLength == 2 && sym < 0x80) || (sequenceLength == 3 && sym < 0x800)
+						|| (sequenceLength == 4 && (sym < 0x10000 || sym > 0x10FFFF));
 				}
 
 				// Error handling when wrong sequence or when surrogate pair (prohibited in the UTF-8)
